@@ -37,7 +37,7 @@ def run(tier, seed, scale):
         Phase("dbg-hot", "c14", "dbg", 7500 if q else 90000, procs=3 if q else 8, timeout=tmo),
         Phase("rel-lossy", "c14", "rel", 12000 if q else 120000, procs=1 if q else 3, args=["--mode", "L"], timeout=tmo),
         Phase("rel-cancel", "c14", "rel", 2000 if q else 30000, procs=1 if q else 3, args=["--mode", "C"], timeout=tmo),
-        # lossy topology 4 (direct puts into a limiter that also pulls from a queue) is the home of a recorded limiter_node defect: own processes, own key class c14.L3.*
+        # lossy topology 4 (direct puts into a limiter that also pulls from a queue) exposed fix c2a9c55 (limiter_node::try_put true for a dropped message): kept as a focused phase
         Phase("rel-L3", "c14", "rel", 2500 if q else 30000, procs=1 if q else 3, args=["--mode", "L3"], timeout=tmo),
         Phase("tsan", "c14", "tsan", 1200 if q else 15000, procs=3 if q else 8, timeout=max(tmo, 1500)),
     ]
